@@ -101,6 +101,7 @@ void analyse(const std::string& prop) {
             case E_ACQ: reqs[e.a].acq = e.seq; break;
             case E_REL_RET: reqs[e.a].rel_ret = e.seq; break;
             case sim::EV_PARK:
+            case sim::EV_FUTEX_WAIT:   // an implementation that blocks through std::atomic::wait / a semaphore parks here
                 if (e.a > 0 && e.a < TAG_BARRIER) reqs[e.a].parks.push_back(e.seq);
                 break;
         }
@@ -211,7 +212,8 @@ void run_batch(const Json& prog) {
         // all of the n threads spawned from index `from` are parked on a condition variable
         for (int i = from; i < from + n; i++) {
             if (i >= (int)tids.size()) return false;
-            if (sim::thread_info(tids[i]).state != sim::T_BLK_COND) return false;
+            auto st = sim::thread_info(tids[i]).state;
+            if (st != sim::T_BLK_COND && st != sim::T_BLK_FUTEX) return false;
         }
         return true;
     };
@@ -248,7 +250,7 @@ std::string classify_deadlock(const Json& prog, const std::vector<sim::ThreadInf
     bool batch = prog.gets("kind", "random") == "batch";
     if (batch) return "batch-deadlock";
     for (auto& t : ti)
-        if ((t.state == sim::T_BLK_COND) && t.tag > IDLE_BASE) return "idle-probe-park";
+        if ((t.state == sim::T_BLK_COND || t.state == sim::T_BLK_FUTEX) && t.tag > IDLE_BASE) return "idle-probe-park";
     return "lost-wakeup";
 }
 
